@@ -32,7 +32,8 @@ import numpy as np
 from lib import core
 from props import c11
 
-EXTRACTORS = ["Registry"]
+EXTRACTORS = ["Registry", "Cacheconc"]
+EXTRA_PROPS = ["C10Cache"]   # cache_concurrent_serializable (Props/C10Cache.lean); harness part in c10_cache.py
 STEP_TIMEOUT = 20.0          # seconds a single scheduler step may take before the machinery gives up
 POINT_CAP = 3                # preemptions per source line and event kind within one call into the traced files
 METHODS = ["register", "register_on_import", "get_by_tensors", "get_by_name", "get", "enter", "exit"]
@@ -1057,6 +1058,9 @@ def run(ctx):
     found_e2e = e2e_search(ctx, n_e2e)
 
     ctx.extra["phase_s"]["e2e"] = round(time.time() - t0, 1)
+    # (iii b) the compiled-function cache under the scheduler (model Cache/Concurrent.lean, theorems Props/C10Cache.lean)
+    from props import c10_cache
+    c10_cache.run(ctx)
 
     def enough():
         # something is broken and a concrete failing input has been found: the expensive phases add nothing
@@ -1106,6 +1110,9 @@ def replay(ctx, path):
         doc = json.load(f)
     r = doc["replay"]
     print(json.dumps({k: v for k, v in r.items() if k not in ("case", "serial_outcomes")}, indent=1)[:3000])
+    if "cache_case" in r:
+        from props import c10_cache
+        return c10_cache.replay(ctx, r)
     if "case" in r:
         case = Case.from_json(r["case"])
         pf = coarse_points if r.get("points") == "coarse" else None
